@@ -105,6 +105,10 @@ package wire
 //@   requires pt.f != nil
 //@   ensures result == pt.f
 
+//@ fieldinv Info.Sets forall k ProviderSetID :: has(v, k) ==> v[k] != nil
+//@ func (*ProviderSet).Outputs
+//@   modifies nothing
+//@   ensures forall i :: 0 <= i && i < len(result) ==> result[i] != nil
 //@ func (*ProviderSet).For
 //@   modifies nothing
 //@   ensures set.providerMap == nil || !TMD[set.providerMap][tid(t)] ==> result.p == nil && result.v == nil && result.a == nil && result.f == nil
